@@ -31,10 +31,12 @@ type Site struct {
 
 // Result is what Instrument returns.
 type Result struct {
-	Overlay  map[string]string // original path -> rewritten path
-	Sites    []Site
-	Counts   map[string]int
-	Packages []string
+	Overlay   map[string]string // original path -> rewritten path
+	Sites     []Site
+	Counts    map[string]int
+	Packages  []string
+	Added     map[string]string // path of a generated file (inside a package dir) -> content
+	ResetVars []string
 }
 
 type edit struct {
@@ -326,6 +328,10 @@ type Options struct {
 	MapSeam    bool
 	FSSeam     bool
 	RenameMain bool // package main: func main -> gcsimOrigMain
+	// GenReset: generate a file that lets the driver put every zero-initialised
+	// package-level variable of the package back to its zero value (the boundary
+	// between two simulated driver processes), whatever these variables are called.
+	GenReset bool
 }
 
 func (fc *fileCtx) walk(opt Options) {
@@ -632,7 +638,7 @@ type PackageSpec struct {
 
 // Instrument loads the given packages from repoDir and writes rewritten copies under outDir.
 func Instrument(repoDir, outDir string, specs []PackageSpec, env []string) (*Result, error) {
-	res := &Result{Overlay: map[string]string{}, Counts: map[string]int{}}
+	res := &Result{Overlay: map[string]string{}, Counts: map[string]int{}, Added: map[string]string{}}
 	fset := token.NewFileSet()
 	var patterns []string
 	optFor := map[string]Options{}
@@ -679,6 +685,37 @@ func Instrument(repoDir, outDir string, specs []PackageSpec, env []string) (*Res
 		}
 		res.Packages = append(res.Packages, p.PkgPath)
 		opt := optFor[p.PkgPath]
+		if opt.GenReset && len(p.CompiledGoFiles) > 0 {
+			var names []string
+			for _, f := range p.Syntax {
+				for _, d := range f.Decls {
+					gd, ok := d.(*ast.GenDecl)
+					if !ok || gd.Tok != token.VAR {
+						continue
+					}
+					for _, sp := range gd.Specs {
+						vs := sp.(*ast.ValueSpec)
+						if len(vs.Values) != 0 {
+							continue // initialised: configuration, not run state
+						}
+						for _, n := range vs.Names {
+							if n.Name != "_" {
+								names = append(names, n.Name)
+							}
+						}
+					}
+				}
+			}
+			sort.Strings(names)
+			var b strings.Builder
+			fmt.Fprintf(&b, "package %s\n\n// Generated by the gcsim instrumenter; added through the build overlay only.\n\nimport %s\n\nfunc init() {\n\tgcsimrt.AnalyzerReset = func() {\n", p.Name, rtImport)
+			for _, n := range names {
+				fmt.Fprintf(&b, "\t\tgcsimrt.Zero(&%s)\n", n)
+			}
+			b.WriteString("\t}\n}\n")
+			res.Added[filepath.Join(filepath.Dir(p.CompiledGoFiles[0]), "zz_gcsim_reset.go")] = b.String()
+			res.ResetVars = names
+		}
 		for i, f := range p.Syntax {
 			path := p.CompiledGoFiles[i]
 			if !strings.HasSuffix(path, ".go") {
@@ -729,6 +766,15 @@ func (r *Result) WriteOverlay(outDir string, extra map[string]string) (string, e
 	}
 	for k, v := range extra {
 		m[k] = v
+	}
+	i := 0
+	for k, content := range r.Added {
+		dst := filepath.Join(outDir, fmt.Sprintf("added-%d.go", i))
+		i++
+		if err := os.WriteFile(dst, []byte(content), 0o644); err != nil {
+			return "", err
+		}
+		m[k] = dst
 	}
 	b, _ := json.MarshalIndent(map[string]any{"Replace": m}, "", " ")
 	path := filepath.Join(outDir, "overlay.json")
